@@ -280,10 +280,14 @@ class _AuthMiddleware:
         paths still get transport metadata populated.
         """
         transport_metadata = _build_transport_metadata(req)
+        path = req.path
         exempt = (
             req.method == "OPTIONS"
-            or req.path.startswith("/.well-known/")
-            or any(req.path.startswith(pfx) for pfx in self._exempt_prefixes)
+            or path.startswith("/.well-known/")
+            # An entry ending in "/" exempts the subtree below it; any other entry
+            # names one endpoint and must match exactly, otherwise "{prefix}/health"
+            # would also exempt the RPC routes "{prefix}/healthz" and "{prefix}/health/init".
+            or any(path == pfx or (pfx.endswith("/") and path.startswith(pfx)) for pfx in self._exempt_prefixes)
         )
         if self._authenticate is None or exempt:
             tc = _TransportContext(auth=_ANONYMOUS, transport_metadata=transport_metadata)
